@@ -96,6 +96,67 @@ func roundTrip(how, ser string, list []model.Pair) *fw.Finding {
 	return nil
 }
 
+// c11LongSort: Sort is a stable sort by name and SortAbsolute a stable sort by name+value, also on long
+// lists; values are the original positions.
+func c11LongSort(names []string) *fw.Finding {
+	var f *fw.Finding
+	subject := fmt.Sprintf("%d pairs", len(names))
+	if pan := safely(func() {
+		var sb strings.Builder
+		var list []model.Pair
+		for i, n := range names {
+			if i > 0 {
+				sb.WriteByte('&')
+			}
+			v := fmt.Sprint(i)
+			sb.WriteString(n + "=" + v)
+			list = append(list, model.Pair{Name: n, Value: v})
+		}
+		for _, abs := range []bool{false, true} {
+			u, err := url.Parse("http://h/?" + sb.String())
+			if err != nil {
+				return
+			}
+			sp := u.SearchParams()
+			want := model.ListSortStable(list, byteLess)
+			op := "Sort"
+			if abs {
+				sp.SortAbsolute()
+				want = sortAbsExpected(list)
+				op = "SortAbsolute"
+			} else {
+				sp.Sort()
+			}
+			if got := readList(sp); !pairsEqual(got, want) {
+				f = fw.F("list-long-"+op, subject, "%s on the %d-pair list %q gives %q, a stable sort gives %q", op, len(names), sb.String(), serializeShort(got), serializeShort(want))
+				return
+			}
+			if q := u.Query(); q != sp.String() {
+				f = fw.F("list-long-"+op, subject, "%s on a %d-pair list: Query() not updated", op, len(names))
+				return
+			}
+		}
+	}); pan != "" {
+		return fw.F("panic", subject, "sorting a %d-pair list panicked: %s", len(names), pan)
+	}
+	return f
+}
+
+func serializeShort(l []model.Pair) string {
+	var sb strings.Builder
+	for i, p := range l {
+		if i > 0 {
+			sb.WriteByte('&')
+		}
+		sb.WriteString(p.Name + "=" + p.Value)
+		if sb.Len() > 160 {
+			sb.WriteString("...")
+			break
+		}
+	}
+	return sb.String()
+}
+
 // c11Parse: initialising from a query follows form-urlencoded parsing.
 func c11Parse(prefix, q string) (*fw.Finding, int) {
 	var f *fw.Finding
@@ -236,6 +297,7 @@ func init() {
 		ops := qsToOps(cs.Ops)
 		return c11Check(nil, string(cs.S[0]), ops, ReplayCap(string(cs.S[0]), ops, cs.N[0]))
 	})
+	fw.RegisterEvaluator("c11-longsort", func(cs *fw.Case) *fw.Finding { return c11LongSort(strsOf(cs.S)) })
 	fw.RegisterEvaluator("c11-parse", func(cs *fw.Case) *fw.Finding {
 		f, _ := c11Parse(string(cs.S[0]), string(cs.S[1]))
 		return f
@@ -245,7 +307,7 @@ func init() {
 		ID:    "C11",
 		Level: "model_checking",
 		Rule: "(i) explicit-state BFS over histories of Append/Set/Delete/Sort/SortAbsolute on a real SearchParams (names {a b '' a&b A e-acute} x values {1 '' c=d 1+1 %41 space}, 80 operations, list length capped), the standard's list operations in lock-step; after every step Get/GetAll/Has for 8 probe names, the list itself, and parse(serialize(list)) = list (by the standard's parser and by the implementation); " +
-			"(ii) every query of SigmaQ^<=k (a b = & + % 2 B 4 e-acute 0xFF space ;) parsed through Parse and through SetSearch with a live handle against the standard's form-urlencoded parser. non-trivial = new list states / queries with at least one pair",
+			"(ii) long lists: every name sequence over {a,b} of length 5..8 and 12..13 (thorough ..16) and every periodic pattern (period <=5 over 3 names) at lengths 14..300, values = positions: Sort and SortAbsolute must be stable sorts; (iii) every query of SigmaQ^<=k (a b = & + % 2 B 4 e-acute 0xFF space ;) parsed through Parse and through SetSearch with a live handle against the standard's form-urlencoded parser. non-trivial = new list states / queries with at least one pair",
 		Assume:  []string{"the standard's urlencoded parser/serializer and list operations as transcribed in verif/model", "sort order checked with Go's byte order on names where UTF-8 and UTF-16 order coincide", "invalid UTF-8 compared as U+FFFD"},
 		Trusted: []string{"verif/model"},
 		Body: func(c *fw.Ctx) {
@@ -255,6 +317,64 @@ func init() {
 			}
 			ex := &Explore{Label: "list-histories", Starts: []string{"http://h/", "http://h/?a=1&b=2&a=3", "foo:x?b=+&A=%41"}, Alphabet: SPAlphabet(1, SPNames, SPValues), Depth: depth, MLCap: capn, Check: c11Check, Kind: "c11-hist"}
 			ex.run2(c, capn)
+			// long lists: sorting algorithms switch strategy with the length (insertion sort below a threshold),
+			// so stability must also be decided beyond the small lists of the history search
+			c.Space("long-list-sort")
+			longOne := func(names []string) {
+				c.Eval()
+				c.R.Traces++
+				c.R.Transitions++
+				if f := c11LongSort(names); f != nil {
+					nn := append([]string{}, names...)
+					c.Report(f, func() *fw.Case { return &fw.Case{Kind: "c11-longsort", S: fw.Strs(nn...)} })
+				} else {
+					c.Nontrivial()
+					c.StateHash(fw.Hash(strings.Join(names, ",")))
+				}
+			}
+			nExh := 13
+			if c.Thorough() {
+				nExh = 16
+			}
+			for n := 5; n <= nExh; n++ {
+				if n > 8 && n < 12 {
+					continue
+				}
+				for v := 0; v < 1<<uint(n); v++ {
+					if !c.Mine() || c.Expired() {
+						continue
+					}
+					names := make([]string, n)
+					for i := range names {
+						names[i] = string(rune('b' - (v>>uint(i))&1))
+					}
+					longOne(names)
+				}
+			}
+			for period := 1; period <= 5; period++ {
+				pat := make([]int, period)
+				var gen func(i int)
+				gen = func(i int) {
+					if i == period {
+						if !c.Mine() {
+							return
+						}
+						for _, n := range []int{14, 16, 20, 33, 64, 100, 300} {
+							names := make([]string, n)
+							for j := range names {
+								names[j] = []string{"c", "a", "b"}[pat[j%period]]
+							}
+							longOne(names)
+						}
+						return
+					}
+					for x := 0; x < 3; x++ {
+						pat[i] = x
+						gen(i + 1)
+					}
+				}
+				gen(0)
+			}
 			c.Space("query-parse")
 			k := 5
 			if c.Thorough() {
